@@ -207,7 +207,8 @@ class C11:
             if printed:
                 uris.append(("printed", printed[-1]))
                 counters["printed_compared"] = 1
-            else:
+            elif case["via"] != "lib":
+                # a command-line invocation that does not print the URI does not deliver it at all
                 viol.append(oracles.V("uri-not-printed", stdout=buf.getvalue()[:200]))
             if case.get("create_magnet") and case["origin"] == "tool" and case["route"].startswith("cli"):
                 # the URI printed by `create --magnet` is the automatic one for the metafile just written
@@ -228,7 +229,7 @@ class C11:
                                                   got=[x.decode("latin-1") for x in got0],
                                                   want=sorted(x.decode() for x in want0), version=ver, request=0))
                 else:
-                    viol.append(oracles.V("uri-not-printed", which="create --magnet"))
+                    viol.append(oracles.V("uri-not-printed", which="create --magnet"))     # --magnet exists to print it
             for which, uri in uris:
                 params = parse_magnet(uri) if isinstance(uri, str) else None
                 if params is None:
@@ -919,6 +920,9 @@ class C20:
                 viol.append(oracles.V("route-raised", route=route, exc=oc.excname(), tb=(oc.tb or "")[-1000:],
                                       order=orderclass))
                 continue
+            if not os.path.isfile(expect) and case["out"] is None and \
+                    os.path.isfile(os.path.join(base, tree["name"] + ".torrent")):
+                expect = os.path.join(base, tree["name"] + ".torrent")     # "adjacent to the content" (manual)
             if not os.path.isfile(expect):
                 produced = sorted(os.path.relpath(os.path.join(d, f), sub) for d, _, fs in os.walk(sub) for f in fs)
                 viol.append(oracles.V("metafile-not-at-out", route=route, expected=os.path.relpath(expect, sub),
@@ -926,6 +930,8 @@ class C20:
                 continue
             with open(expect, "rb") as fd:
                 raws[route] = fd.read()
+            if expect == os.path.join(base, tree["name"] + ".torrent"):
+                os.remove(expect)
         if case["out"] == "file":
             counters["out_file_cases"] = 1
         elif case["out"] == "dir":
@@ -946,7 +952,9 @@ class C20:
             exp = {}
             if o.get("announce"):
                 exp["announce"] = (val(top.get(b"announce")), o["announce"][0].encode())
-                exp["announce-list"] = (val(top.get(b"announce-list")), [[u.encode() for u in o["announce"]]])
+                al = val(top.get(b"announce-list"))
+                flat = [u for t in al for u in t] if isinstance(al, list) and all(isinstance(t, list) for t in al) else al
+                exp["announce-list"] = (flat, [u.encode() for u in o["announce"]])
             else:
                 exp["announce"] = (val(top.get(b"announce")), None)
             exp["url-list"] = (val(top.get(b"url-list")), [u.encode() for u in o["url_list"]] if o.get("url_list") else None)
